@@ -1,23 +1,39 @@
 import FiberModel.C04.Model
+import FiberModel.C02.Model
 /-
 C08 — model of the error funnel, transcribed from /repo *after* the `fix:` commits recorded in
-known/C08.json (F1, F2, F3):
+known/C08.json (F1, F2, F3, K1→F4):
 
   app.go    App.Group, group.go Group.Group (Prefix of nested groups)    ↔ groupPrefix
   mount.go  App.mount / Group.mount (appList keys), appendSubAppLists   ↔ nodeKeys / appList
-  app.go    App.ErrorHandler (range over the map `appList`)              ↔ step / select / errorHandler
+  mount.go  generateAppListKeys (keys that are route patterns are parsed  ↔ isPatternKey / parseKey
+            once at startup: `appListParsers`)
+  mount.go  routeParser.mountPrefixLen (shortest leading part of the     ↔ mountPrefixLen
+            path, ending on a segment boundary, the parsed prefix matches)
+  path.go   parseRouteWritten / getMatch / CheckConstraint               ↔ C02.parseRouteW / C02.getMatch / `chk`
+            (the definitions of the C02 model — same Go functions)
+  ctx.go    configDependentPaths (the detection path of the context)     ↔ detOf
+  app.go    App.ErrorHandler (range over the map `appList`)              ↔ rankOf / step / select / errorHandler
   app.go    hasMountPrefix(path, prefix, caseSensitive)                  ↔ hasMountPrefix
   app.go    DefaultErrorHandler (errors.As(*Error) → Code, else 500)     ↔ defaultHandler
   router.go defaultRequestHandler / customRequestHandler (error funnel)  ↔ funnel
+  middleware/logger New (calls c.App().ErrorHandler itself for the error    ↔ deliver / throughLoggers / request
+            coming back from c.Next(), then returns LoggerFunc's nil)
   app.go    serverErrorHandler (fasthttp-level errors: no chain ran)     ↔ SrvErr / mapServerErr / serverFunnel
   app.go    (before the fixes) App.ErrorHandler                          ↔ stepOld / selectOld  (kept as
             the record of why the first repair was needed; see Props `old_order_dependent`)
+  app.go    App.ErrorHandler between F3 and F4 (literal keys only)        ↔ stepLit / selectLit  (record of
+            the former known finding K1; see Props `K1_repaired`)
 
 `appList` is a Go map: the model represents it as a list of entries with pairwise different keys
 and `select` folds over the list in the order given — the theorems quantify over every permutation.
 `getGroupPath`, `mountPath`, `regPath`, `ensureSlash`, `Cfg` are the definitions of the C04 model
-(same Go functions / configuration). Of `Cfg` only `caseSensitive` matters here: `App.ErrorHandler`
-tests `ctx.Path()` (letter case and trailing slashes as sent), never the detection path.
+(same Go functions / configuration). A literal key is tested on `ctx.Path()` (letter case and
+trailing slashes as sent, `caseSensitive` decides how letters compare); a key that is a route
+pattern is matched, like a route, on the context's detection path (lower-cased unless
+CaseSensitive, trailing slashes cut unless StrictRouting) with the values taken from `ctx.Path()`.
+`path` everywhere below is `ctx.Path()` at the time the error reaches the funnel (after
+UnescapePath, after a handler's `c.Path(override)`).
 
 What a handler does is part of the case: an app's own handler either answers (status 418, body
 "eh<id>:" ++ message) or fails (returns an error) — `Own.fails`.
@@ -74,17 +90,73 @@ def hasMountPrefix (cfg : Cfg) (path pre : Bytes) : Bool :=
     if head != pre && (cfg.caseSensitive || !equalFold head pre) then false
     else path.length == pre.length || pre.getLast? == some 47 || path[pre.length]? == some 47
 
-/-- one iteration of the loop in `App.ErrorHandler`; the accumulator is
-(mountedErrHandler, mountedPrefixLen). `if prefix[0] != '/' { prefix = "/" + prefix }` is
-`ensureSlash` (the key is not empty at that point). -/
-def step (cfg : Cfg) (path : Bytes) (acc : Option Own × Nat) (m : Mounted) : Option Own × Nat :=
+/-- mount.go `generateAppListKeys`: `strings.ContainsAny(key, ":*+\\")` — the key is a route pattern
+(parameter, wildcard, or an escaped character) and gets an entry in `appListParsers` -/
+def isPatternKey (k : Bytes) : Bool := k.any fun c => c == 58 || c == 42 || c == 43 || c == 92
+
+/-- mount.go `generateAppListKeys`: `pattern := key` with the leading slash; `pretty := pattern`,
+lower-cased unless CaseSensitive; `parseRouteWritten(pretty, pattern, …)`. `none` = the parser
+panics (register panicked on the same text when the app was mounted). -/
+def parseKey (cfg : Cfg) (k : Bytes) : Option (List C02.Seg) :=
+  let pattern := ensureSlash k
+  let pretty := if cfg.caseSensitive then pattern else toLower pattern
+  (C02.parseRouteW pretty pattern).map (·.segs)
+
+/-- ctx.go `configDependentPaths`: the detection path that belongs to `ctx.Path()` -/
+def detOf (cfg : Cfg) (path : Bytes) : Bytes :=
+  let det := if cfg.caseSensitive then path else toLower path
+  if !cfg.strict && det.length > 1 && det.getLast? == some 47 then trimRight det 47 else det
+
+/-- the test of one `cut` in `mountPrefixLen` -/
+def cutMatches (chk : C02.Constraint → Bytes → Bool) (segs : List C02.Seg) (det path : Bytes) (cut : Nat) : Bool :=
+  (cut == det.length || det[cut]? == some 47) &&
+    (C02.getMatch chk segs (det.take cut) (path.take cut) false).isSome
+
+/-- mount.go `routeParser.mountPrefixLen`: `for cut := 1; cut <= len(detectionPath); cut++ { if (cut ==
+len(detectionPath) || detectionPath[cut] == '/') && parser.getMatch(detectionPath[:cut], path[:cut],
+&params, false) { return cut } }; return -1` (`none` = -1) -/
+def mountPrefixLen (chk : C02.Constraint → Bytes → Bool) (segs : List C02.Seg) (det path : Bytes) : Option Nat :=
+  (List.range' 1 det.length).find? (cutMatches chk segs det path)
+
+/-- Go's `<` on strings: byte-wise lexicographic -/
+def bytesLt : Bytes → Bytes → Bool
+  | _, [] => false
+  | [], _ :: _ => true
+  | a :: s, c :: t => a < c || (a == c && bytesLt s t)
+
+/-- `rank` in the loop of `App.ErrorHandler` for an entry that is not skipped; `none` = the prefix
+does not contain the path (`continue`, or the negative rank 2·(-1) that never wins). A key with a
+parser: twice what `mountPrefixLen` returns; a literal key: `2*len(prefix)+1` if `hasMountPrefix`.
+`parseKey = none` cannot be reached (startup would have panicked); it is read as "no match". -/
+def rankOf (chk : C02.Constraint → Bytes → Bool) (cfg : Cfg) (path : Bytes) (k : Bytes) : Option Nat :=
+  if isPatternKey k then
+    match parseKey cfg k with
+    | none => none
+    | some segs => (mountPrefixLen chk segs (detOf cfg path) path).map (2 * ·)
+  else if hasMountPrefix cfg path (ensureSlash k) then some (2 * (ensureSlash k).length + 1) else none
+
+/-- the accumulator of the loop: (mountedErrHandler, mountedPrefix, mountedRank) -/
+structure Acc where
+  own : Option Own
+  pre : Bytes
+  rank : Nat
+  deriving Repr, DecidableEq
+
+/-- one iteration of the loop in `App.ErrorHandler`. `if prefix[0] != '/' { prefix = "/" + prefix }`
+is `ensureSlash` (the key is not empty at that point); the parser is looked up under the key as
+stored. `if rank > mountedRank || (rank == mountedRank && prefix > mountedPrefix)`. -/
+def step (chk : C02.Constraint → Bytes → Bool) (cfg : Cfg) (path : Bytes) (acc : Acc) (m : Mounted) : Acc :=
   if m.pre = [] ∨ m.own = none then acc
-  else if hasMountPrefix cfg path (ensureSlash m.pre) = false then acc
-  else if (ensureSlash m.pre).length > acc.2 then (m.own, (ensureSlash m.pre).length) else acc
+  else match rankOf chk cfg path m.pre with
+    | none => acc
+    | some r =>
+      if r > acc.rank ∨ (r = acc.rank ∧ bytesLt acc.pre (ensureSlash m.pre) = true) then
+        ⟨m.own, ensureSlash m.pre, r⟩
+      else acc
 
 /-- `mountedErrHandler` after ranging over the map in the order `l` -/
-def select (cfg : Cfg) (l : List Mounted) (path : Bytes) : Option Own :=
-  (l.foldl (step cfg path) (none, 0)).1
+def select (chk : C02.Constraint → Bytes → Bool) (cfg : Cfg) (l : List Mounted) (path : Bytes) : Option Own :=
+  (l.foldl (step chk cfg path) ⟨none, [], 0⟩).own
 
 /-- the error value as the funnel sees it: what `errors.As(err, &*Error)` finds and `err.Error()` -/
 inductive Err where
@@ -124,23 +196,65 @@ def invoke (h : Option Own) (e : Err) : Ran × Option (Nat × Bytes) :=
 
 /-- app.go `App.ErrorHandler`: the mounted handler if one was selected, else `app.config.ErrorHandler`
 (the root's configured handler or DefaultErrorHandler) — called once -/
-def errorHandler (cfg : Cfg) (l : List Mounted) (rootOwn : Option Own) (path : Bytes) (e : Err) :
-    Ran × Option (Nat × Bytes) :=
-  match select cfg l path with
+def errorHandler (chk : C02.Constraint → Bytes → Bool) (cfg : Cfg) (l : List Mounted) (rootOwn : Option Own)
+    (path : Bytes) (e : Err) : Ran × Option (Nat × Bytes) :=
+  match select chk cfg l path with
   | some o => invoke (some o) e
   | none => invoke rootOwn e
 
 /-- router.go `defaultRequestHandler`: `_, err := app.next(ctx); if err != nil { if catch :=
 ctx.App().ErrorHandler(ctx, err); catch != nil { ctx.SendStatus(500) } }`.
 `chain = none`: the chain returned nil — nothing is called (`none`). -/
-def funnel (cfg : Cfg) (l : List Mounted) (rootOwn : Option Own) (path : Bytes) (chain : Option Err) :
-    Option Outcome :=
+def funnel (chk : C02.Constraint → Bytes → Bool) (cfg : Cfg) (l : List Mounted) (rootOwn : Option Own)
+    (path : Bytes) (chain : Option Err) : Option Outcome :=
   match chain with
   | none => none
   | some e =>
-    match errorHandler cfg l rootOwn path e with
+    match errorHandler chk cfg l rootOwn path e with
     | (r, some (st, body)) => some ⟨[r], st, body⟩
     | (r, none) => some ⟨[r], 500, b "Internal Server Error"⟩
+
+/-! ### fiber's own middleware that delivers errors itself: middleware/logger -/
+
+/-- the response being built and the handler invocations so far -/
+structure Progress where
+  ran : List Ran
+  resp : Option (Nat × Bytes)
+  deriving Repr, DecidableEq
+
+/-- one delivery: `if err := app.ErrorHandler(c, e); err != nil { c.SendStatus(500) }` — the three
+lines are the same in router.go `defaultRequestHandler` / `customRequestHandler`, app.go
+`serverErrorHandler` and middleware/logger `New` -/
+def deliver (chk : C02.Constraint → Bytes → Bool) (cfg : Cfg) (l : List Mounted) (rootOwn : Option Own)
+    (path : Bytes) (e : Err) (p : Progress) : Progress :=
+  match errorHandler chk cfg l rootOwn path e with
+  | (r, some (st, body)) => ⟨p.ran ++ [r], some (st, body)⟩
+  | (r, none) => ⟨p.ran ++ [r], some (500, b "Internal Server Error")⟩
+
+/-- middleware/logger `New`: `chainErr := c.Next(); if chainErr != nil { if err := errHandler(c,
+chainErr); err != nil { _ = c.SendStatus(500) } }; … return cfg.LoggerFunc(c, data, cfg)` with
+`errHandler = c.App().ErrorHandler` and the default LoggerFunc, which returns nil whether or not
+`Skip` says the line is to be written. The way back through the loggers of the chain, innermost
+first; `paths` = `c.Path()` as each of them sees it; `cur` = the error that comes back to the first.
+Returns the progress and what comes back to the framework. -/
+def throughLoggers (chk : C02.Constraint → Bytes → Bool) (cfg : Cfg) (l : List Mounted) (rootOwn : Option Own) :
+    List Bytes → Option Err → Progress → Progress × Option Err
+  | [], cur, p => (p, cur)
+  | _ :: rest, none, p => throughLoggers chk cfg l rootOwn rest none p
+  | path :: rest, some e, p => throughLoggers chk cfg l rootOwn rest none (deliver chk cfg l rootOwn path e p)
+
+/-- a request whose chain holds loggers: the error `origin` comes back to the innermost of
+`loggers`, travels outwards, and what is left reaches router.go's request handler, which sees the
+path `fpath`. `funnel` is the case without loggers (`request_nil`). -/
+def request (chk : C02.Constraint → Bytes → Bool) (cfg : Cfg) (l : List Mounted) (rootOwn : Option Own)
+    (loggers : List Bytes) (fpath : Bytes) (origin : Option Err) : Option Outcome :=
+  let (p, out) := throughLoggers chk cfg l rootOwn loggers origin ⟨[], none⟩
+  let p := match out with
+    | none => p
+    | some e => deliver chk cfg l rootOwn fpath e p
+  match p.resp with
+  | none => none
+  | some (st, body) => some ⟨p.ran, st, body⟩
 
 /-! ### errors before routing: `serverErrorHandler` (the fasthttp server's ErrorHandler) -/
 
@@ -171,9 +285,9 @@ def mapServerErr (e : SrvErr) : Err :=
 with the mapped error; `path` is the path of the context acquired for the broken request (what
 fasthttp had parsed when it gave up: "/" after a header error, the request's path after
 ErrBodyTooLarge / ErrGetOnly — an input here, observed by the harness) -/
-def serverFunnel (cfg : Cfg) (l : List Mounted) (rootOwn : Option Own) (path : Bytes) (e : SrvErr) :
-    Option Outcome :=
-  funnel cfg l rootOwn path (some (mapServerErr e))
+def serverFunnel (chk : C02.Constraint → Bytes → Bool) (cfg : Cfg) (l : List Mounted) (rootOwn : Option Own)
+    (path : Bytes) (e : SrvErr) : Option Outcome :=
+  funnel chk cfg l rootOwn path (some (mapServerErr e))
 
 /-! ### the function as it was before the fixes (record) -/
 
@@ -189,5 +303,16 @@ def stepOld (path : Bytes) (acc : Option Own × Nat) (m : Mounted) : Option Own 
 
 def selectOld (l : List Mounted) (path : Bytes) : Option Own :=
   (l.foldl (stepOld path) (none, 0)).1
+
+/-! ### the loop between the fixes F3 and F4 (record of the former known finding K1) -/
+
+/-- every key is compared literally; the accumulator is (mountedErrHandler, mountedPrefixLen) -/
+def stepLit (cfg : Cfg) (path : Bytes) (acc : Option Own × Nat) (m : Mounted) : Option Own × Nat :=
+  if m.pre = [] ∨ m.own = none then acc
+  else if hasMountPrefix cfg path (ensureSlash m.pre) = false then acc
+  else if (ensureSlash m.pre).length > acc.2 then (m.own, (ensureSlash m.pre).length) else acc
+
+def selectLit (cfg : Cfg) (l : List Mounted) (path : Bytes) : Option Own :=
+  (l.foldl (stepLit cfg path) (none, 0)).1
 
 end C08
